@@ -32,6 +32,8 @@ static void InstallHook() {
 struct World {
   std::unique_ptr<OSSchema> oss;
   std::map<int, FakeTRS*> srcOf;                 // model source name -> source object (sources created by ConnectNew)
+  std::map<const FakeTRS*, std::pair<int, int>> nameOf;   // source object -> (model source name, next base-set index)
+  bool labelled{ false };                        // every base set carries its origin token as term text
   FakeSourceManager& Mgr() { return dynamic_cast<FakeSourceManager&>(Environment::Sources()); }
   FakeTRS* Src(PictID p) { const auto* h = oss->Src()(p); return (h != nullptr && h->src != nullptr) ? &Mgr().DummyCast(*h->src) : nullptr; }
   World() { Environment::Instance().SetSourceManager(std::make_unique<FakeSourceManager>()); oss = std::make_unique<OSSchema>(); }
@@ -43,6 +45,19 @@ static std::string StatusName(ops::Status s) {
 }
 static std::vector<EntityUID> BasesOf(const RSForm& f) { std::vector<EntityUID> v; for (const auto u : f.List()) if (f.GetRS(u).type == CstType::base) v.push_back(u); return v; }
 static int TermsOf(const RSForm& f) { int n = 0; for (const auto u : f.List()) if (f.GetRS(u).type == CstType::term) ++n; return n; }
+static std::string LabelText(int s, int k) { return "L" + std::to_string(s) + "_" + std::to_string(k); }
+static json LabelOf(const RSForm& f, EntityUID u) {     // [source, k] parsed from the term text, [] when the base set carries none
+  const std::string t = f.GetText(u).term.Text().Raw(); int s = 0, k = 0;
+  if (std::sscanf(t.c_str(), "L%d_%d", &s, &k) == 2) return json::array({ s, k });
+  return json::array();
+}
+static EntityUID AddLabelledBase(World& w, FakeTRS& src) {
+  const auto u = src.schema.Emplace(CstType::base);
+  auto& nk = w.nameOf[&src];
+  if (w.labelled) (void)src.schema.SetTermFor(u, LabelText(nk.first, nk.second));
+  ++nk.second;
+  return u;
+}
 static std::string UserTermFor(PictID p) { std::string s; for (PictID i = 0; i < p; ++i) s += "ℬ"; return s + "(X1)"; }
 
 // ---- structure invariants of C19 on the real object
@@ -78,7 +93,15 @@ static json ViewOf(World& w) {
     json it = { {"pid", p}, {"row", pos.has_value() ? pos->row : -1}, {"col", pos.has_value() ? pos->column : -1}, {"parents", w.oss->Graph().ParentsOf(p)}, {"isOp", op != nullptr}, {"hasData", h != nullptr && !h->empty()},
                 {"status", StatusName(w.oss->Ops().StatusOf(p))}, {"broken", op != nullptr && op->broken}, {"outdated", op != nullptr && op->outdated},
                 {"type", op == nullptr ? "" : op->type == ops::Type::rsMerge ? "merge" : op->type == ops::Type::rsSynt ? "synt" : "tba"}, {"n", 0}, {"terms", 0} };
-    if (auto* s = w.Src(p); s != nullptr) { it["n"] = BasesOf(s->schema).size(); it["terms"] = TermsOf(s->schema); }
+    it["labels"] = json::array(); it["key"] = json::array();
+    if (auto* s = w.Src(p); s != nullptr) { it["n"] = BasesOf(s->schema).size(); it["terms"] = TermsOf(s->schema);
+      if (w.labelled) for (const auto u : BasesOf(s->schema)) it["labels"].push_back(LabelOf(s->schema, u)); }
+    if (w.labelled && op != nullptr) if (const auto* eq = dynamic_cast<const ops::EquationOptions*>(op->options.get()); eq != nullptr && eq->size() == 1) {
+      const auto parents = w.oss->Graph().ParentsOf(p); auto* s1 = w.Src(parents[0]); auto* s2 = w.Src(parents[1]);
+      const auto kv = *eq->begin();
+      if (s1 != nullptr && s2 != nullptr && s1->schema.Contains(kv.first) && s2->schema.Contains(kv.second)) it["key"] = json::array({ LabelOf(s1->schema, kv.first), LabelOf(s2->schema, kv.second) });
+      else it["key"] = json::array({ "dangling" });
+    }
     v.push_back(it);
   }
   return v;
@@ -145,12 +168,14 @@ static void Apply(World& w, const json& c, const json& wit, size_t step, vh::Rep
     if (check && res && !leaf) r.Violation("C19", "a pictogram that has children was erased", wit, { {"step", step}, {"pid", p} });
     if (check && !res && ossRef.size() != sizeBefore) r.Violation("C19", "refused erase changed the schema", wit, { {"step", step} });
   }
-  else if (o == "ConnectNew") { if (!ossRef.Contains(p)) return; auto& src = w.Mgr().CreateNewRS(); for (int i = 0; i < c["n"].get<int>(); ++i) src.schema.Emplace(CstType::base); w.srcOf[c["s"].get<int>()] = &src; src.TriggerSave();
+  else if (o == "ConnectNew") { if (!ossRef.Contains(p)) return; auto& src = w.Mgr().CreateNewRS(); w.srcOf[c["s"].get<int>()] = &src; w.nameOf[&src] = { c["s"].get<int>(), 1 };
+    for (int i = 0; i < c["n"].get<int>(); ++i) (void)AddLabelledBase(w, src); src.TriggerSave();
     (void)ossRef.Src().ConnectPict2Src(p, src); }
   else if (o == "Edit") {
     auto* s = w.Src(p); if (s == nullptr) { r.Drift("C19", "edit of a pictogram without attached source", wit, { {"step", step} }); return; }
     const std::string k = c["kind"]; auto bases = BasesOf(s->schema);
-    if (k == "addBase") s->schema.Emplace(CstType::base);
+    if (k == "addBase") (void)AddLabelledBase(w, *s);
+    else if (k == "removeFirst") { if (!s->schema.Erase(bases.front())) r.Drift("C19", "removeFirst refused", wit, { {"step", step} }); }
     else if (k == "removeBase") { if (!s->schema.Erase(bases.back())) r.Drift("C19", "removeBase refused", wit, { {"step", step} }); }
     else if (k == "text") (void)s->schema.SetTermFor(bases.front(), "t" + std::to_string(step) + s->schema.GetText(bases.front()).term.Text().Raw());
     else if (k == "userTerm") s->schema.Emplace(CstType::term, UserTermFor(p));
@@ -179,8 +204,9 @@ static void Apply(World& w, const json& c, const json& wit, size_t step, vh::Rep
     const std::string t = c["type"]; const int table = c["table"].get<int>();
     std::unique_ptr<ops::EquationOptions> opts;
     if (table >= 0) { opts = std::make_unique<ops::EquationOptions>();
-      if (table == 1) { const auto parents = ossRef.Graph().ParentsOf(p); auto* s1 = w.Src(parents[0]); auto* s2 = w.Src(parents[1]);
-        if (s1 != nullptr && s2 != nullptr && !BasesOf(s1->schema).empty() && !BasesOf(s2->schema).empty()) opts->Insert(BasesOf(s1->schema).front(), BasesOf(s2->schema).front());
+      if (table >= 1) { const auto parents = ossRef.Graph().ParentsOf(p); auto* s1 = w.Src(parents[0]); auto* s2 = w.Src(parents[1]);
+        if (s1 != nullptr && s2 != nullptr && !BasesOf(s1->schema).empty() && !BasesOf(s2->schema).empty())
+          opts->Insert(table == 2 ? BasesOf(s1->schema).back() : BasesOf(s1->schema).front(), BasesOf(s2->schema).front());
         else opts->Insert(424242, 434343); } }
     (void)ossRef.Ops().InitFor(p, t == "merge" ? ops::Type::rsMerge : ops::Type::rsSynt, std::move(opts));
   }
@@ -193,7 +219,7 @@ static std::string CompareView(const json& got, const json& exp, bool& freshness
   if (got.size() != exp.size()) return "number of pictograms";
   for (size_t i = 0; i < got.size(); ++i) {
     const auto& g = got[i]; const auto& e = exp[i];
-    for (const char* k : { "pid", "parents", "isOp", "hasData", "type", "n", "terms", "broken", "outdated", "status", "row", "col" }) if (g[k] != e[k]) {
+    for (const char* k : { "pid", "parents", "isOp", "hasData", "type", "n", "terms", "broken", "outdated", "status", "row", "col", "labels", "key" }) if (g[k] != e[k]) {
       if (std::string(k) == "status" || std::string(k) == "outdated") freshness = g["status"] == "done" && e["status"] != "done";
       return std::string(k) + " of pictogram " + std::to_string(g["pid"].get<int>()) + ": " + g[k].dump() + " instead of " + e[k].dump();
     }
@@ -203,8 +229,8 @@ static std::string CompareView(const json& got, const json& exp, bool& freshness
 
 static void Handle(const json& c, vh::Report& r) {
   g_counter = 1000;
-  World w;
-  const json wit = { {"prefix", c["prefix"]}, {"hist", c["hist"]} };
+  World w; w.labelled = c.value("labelled", false);
+  const json wit = { {"labelled", w.labelled}, {"prefix", c["prefix"]}, {"hist", c["hist"]} };
   size_t step = 0;
   for (const auto& op : c["prefix"]) Apply(w, op, wit, step, r, false);
   for (const auto& op : c["hist"]) {
@@ -223,7 +249,10 @@ static void Handle(const json& c, vh::Report& r) {
   for (const auto p : all) if (auto* s = w.Src(p); s != nullptr) s->TriggerSave();
   ++r.checks;
   // freshness on the implementation alone: an operation that reports done holds the synthesis of its parents' current schemas
+  // (with labelled base sets the texts decide which copies DeleteDuplicates merges, so the synthesis can change without any change
+  // of a parent's formal content - what the statement's freshness clause is about; there only the model's statuses are compared)
   for (const auto p : all) {
+    if (w.labelled) break;
     if (w.oss->Ops()(p) == nullptr || w.oss->Ops().StatusOf(p) != ops::Status::done) continue;
     json info = { {"pid", p} };
     const auto v = ResultVsParents(w, p, info);
@@ -247,9 +276,10 @@ static int Record(const vh::Args& args) {
   std::mt19937 g(static_cast<unsigned>(args.num("seed", 1)));
   std::ofstream out(args.get("trace")); vh::Report rep; long events = 0;
   for (long t = 0; t < traces; ++t) {
-    out << json{ {"op", "Reset"} }.dump() << std::endl; ++events;
+    const bool labelled = g() % 2 == 0;
+    out << json{ {"op", "Reset"}, {"labelled", labelled} }.dump() << std::endl; ++events;
     g_counter = 1000;
-    World w; int nextPict = 1, nextSrc = 101;
+    World w; w.labelled = labelled; int nextPict = 1, nextSrc = 101;
     auto ev0 = [](const char* op) { return json{ {"op", op}, {"p", 0}, {"a", 0}, {"b", 0}, {"new", 0}, {"s", 0}, {"n", 0}, {"kind", ""}, {"type", ""}, {"table", 0} }; };
     for (long st = 0; st < steps; ++st) {
       std::vector<PictID> all, opsL, bases; for (const auto& pict : *w.oss) all.push_back(pict.uid); std::sort(all.begin(), all.end());
@@ -274,6 +304,7 @@ static int Record(const vh::Args& args) {
           const auto nb = BasesOf(s->schema).size(); const bool isOp = w.oss->Ops()(p) != nullptr;
           if (!isOp && nb < 3) can.push_back({ p, "addBase" });
           if (!isOp && nb >= 2) can.push_back({ p, "removeBase" });
+          if (!isOp && nb >= 2 && labelled) can.push_back({ p, "removeFirst" });
           bool hasOwn = false; for (const auto u : s->schema.List()) if (!s->schema.Mods().IsTracking(u) && isOp) hasOwn = true;
           if (isOp && nb >= 1 && !hasOwn) can.push_back({ p, "userTerm" });
         }
@@ -285,8 +316,8 @@ static int Record(const vh::Args& args) {
         if (opsL.empty()) { --st; continue; }
         const auto p = pick(opsL); const auto parents = w.oss->Graph().ParentsOf(p);
         const bool bothBases = w.oss->Ops()(parents[0]) == nullptr && w.oss->Ops()(parents[1]) == nullptr;
-        const int k = static_cast<int>(g() % (bothBases ? 3 : 2));
-        ev = ev0("InitFor"); ev["p"] = p; ev["type"] = k == 0 ? "merge" : "synt"; ev["table"] = k == 0 ? -1 : k == 1 ? 0 : 1;
+        const int k = static_cast<int>(g() % (labelled ? 4 : bothBases ? 3 : 2));
+        ev = ev0("InitFor"); ev["p"] = p; ev["type"] = k == 0 ? "merge" : "synt"; ev["table"] = k == 0 ? -1 : k - 1;
       }
       else if (wgt < 90) { if (opsL.empty()) { --st; continue; } ev = ev0("Execute"); ev["p"] = pick(opsL); }
       else if (wgt < 94) { if (opsL.empty()) { --st; continue; } ev = ev0("ExecuteAll"); }
